@@ -101,9 +101,37 @@ def gen_string(rng, profile, maxlen=8):
     return "".join(rng.choice(pool) for _ in range(n))
 
 
+def gen_dense_string(rng, size=None):
+    """Boundary-dense long text: a two-character sequence that is escaped (or
+    translated) as a unit - '//' or CR LF - placed so that it straddles offset k*B
+    for every power-of-two block size B from 1 Ki to 64 Ki (k = 1..3), shifted by a
+    small seeded amount (0 for a component written as is, 1 for SM note data which is
+    written after a line break, or anything up to 63).  Line breaks every 64
+    characters keep msdparser's lexer out of its quadratic no-newline path."""
+    size = size or rng.choice([9000, 26000, 26000, 26000, 200000])
+    shift = rng.choice([0, 0, 1, 1, rng.randint(0, 63)])
+    two = rng.choice(["//", "//", "\r\n"])
+    chars = ["a"] * size
+    for i in range(63, size, 64):
+        chars[i] = "\n"
+    block = 1024
+    while block <= 65536:
+        for k in (1, 2, 3):
+            pos = k * block - 1 - shift
+            if 1 <= pos and pos + 2 < size:
+                chars[pos - 1] = "a"
+                chars[pos] = two[0]
+                chars[pos + 1] = two[1]
+                chars[pos + 2] = "a"
+        block *= 2
+    return "".join(chars)
+
+
 def gen_value(rng, profile, none_rate=0.06):
     if rng.random() < none_rate:
         return None
+    if profile in ("meta", "wild") and rng.random() < 0.002:
+        return gen_dense_string(rng)
     return gen_string(rng, profile)
 
 
@@ -127,7 +155,8 @@ def gen_key(rng, fmt, profile, level="simfile"):
     elif r < 0.65:
         k = rng.choice(MULTI)
     elif r < 0.72:
-        k = rng.choice(["VERSION", "BGCHANGES2", "X", "", "NOTES2", "NOTES"])
+        k = rng.choice(["VERSION", "BGCHANGES2", "X", "", "NOTES2", "NOTES", "NOTES3", "NOTESKIN",
+                        "ATTAC\u212aS", "\u212aEYSOUNDS", "ATTACKS2", "XDISPLAYBPM", "NOTEDATA2"])
     elif r < 0.76 and not profile.startswith("enc:") and profile != "plain":
         k = "".join(rng.choice(UPPER_STABLE + ["A", "Z", "_"]) for _ in range(rng.randint(1, 4)))
     elif r < 0.78 and not profile.startswith("enc:"):
@@ -142,6 +171,8 @@ def stripped(s):
 
 
 def gen_field(rng, profile):
+    if profile in ("meta", "wild") and rng.random() < 0.003:
+        return gen_dense_string(rng).replace("\r", "").strip()
     return gen_string(rng, profile).strip()
 
 
@@ -149,6 +180,10 @@ def gen_sm_chart_spec(rng, profile):
     if rng.random() < 0.2:
         return {"from": "blank"}
     spec = {"from": "fields", "fields": [gen_field(rng, profile) for _ in range(6)]}
+    if rng.random() < 0.012:
+        # long note data whose escapable pairs straddle block boundaries (written after a
+        # line break, hence the shift of one)
+        spec["fields"][5] = gen_dense_string(rng, rng.choice([26000, 70000, 200000])).replace("\r", "").strip()
     if rng.random() < 0.3:
         order = list(range(6))
         rng.shuffle(order)
@@ -174,6 +209,8 @@ def gen_ssc_chart_spec(rng, profile, hazards=True):
         items.append([k, gen_value(rng, profile)])
     nk = "NOTES2" if rng.random() < 0.25 else "NOTES"
     notes = gen_value(rng, profile, 0.03)
+    if rng.random() < 0.012:
+        notes = gen_dense_string(rng, rng.choice([26000, 70000, 200000]))
     pos = rng.randint(0, len(items))
     items.insert(pos, [nk, notes])
     if hazards and rng.random() < 0.5 and notes is not None:
@@ -358,6 +395,12 @@ def gen_simfile_text(rng, fmt, profile, nparams=None, ncharts=None, messy=0.0):
             lines.append("// comment %s" % gen_string(rng, "plain").replace("\n", " "))
     nc = rng.randint(0, 2) if ncharts is None else ncharts
     for _ in range(nc):
+        if fmt == "sm" and messy and rng.random() < 0.15:
+            # structurally malformed chart: fewer than six components (the loader must
+            # raise ValueError, after the file decoded fine)
+            lines.append("#NOTES:" + ":".join(esc(gen_string(rng, profile).strip())
+                                              for _ in range(rng.randint(1, 5))) + ";")
+            continue
         if fmt == "sm":
             f = [gen_string(rng, profile).strip() for _ in range(6)]
             lines.append("#NOTES:" + ":".join("\n     " + esc(x) for x in f[:5])
